@@ -5,6 +5,8 @@ import os, sys, json, time, re, subprocess, random, hashlib, importlib, tracebac
 VERIF = os.path.dirname(os.path.dirname(os.path.abspath(__file__)))
 LEAN = os.path.join(VERIF, 'lean')
 EVID = os.path.join(VERIF, 'evidence')
+if os.environ.get('AY_REPO'):      # a scratch repository (seeded change, refactoring, reverted fix): never touch the committed evidence
+    EVID = os.path.join(os.environ['AY_REPO'], '.verif-evidence')
 REPLAYS = os.path.join(EVID, 'replays')
 ALLOWED_AXIOMS = {'propext', 'Classical.choice', 'Quot.sound'}
 FORBIDDEN = re.compile(r'\b(sorry|admit|native_decide|bv_decide|implemented_by|unsafe\s|axiom\s|maxHeartbeats\s+0)\b')
